@@ -66,6 +66,8 @@ type frame struct {
 	curPos           token.Pos // position of the instruction being executed
 }
 
+var runtimeErrorSites = map[string]int{}
+
 var lastPanic struct {
 	payload interface{}
 	where   string
@@ -710,6 +712,16 @@ func runFrame(fr *frame) {
 			// innermost frame that sees this panic: remember where it happened
 			lastPanic.payload = r
 			lastPanic.where = fr.fn.String() + " (" + loc(fr.fn.Prog.Fset, fr.curPos) + ")"
+			if _, isRT := r.(goRuntimeError); isRT {
+				// runtime errors raised inside the target (nil dereference, index out of range,
+				// failed type assertion): if the target recovers them they never surface, so
+				// they are recorded per site for audit — one of them turned out to be an
+				// artefact of the executor (writes to the unmodelled os.Stderr)
+				runtimeErrorSites[lastPanic.where+": "+describePanic(r)]++
+			}
+			if os.Getenv("GOSYM_PANICS") != "" {
+				fmt.Fprintf(os.Stderr, "TARGET-PANIC %T %v @ %s\n", r, describePanic(r), lastPanic.where)
+			}
 		}
 		if fr.i.trace {
 			fmt.Fprintf(os.Stderr, "Panicking in %s: %T %v.\n", fr.fn, fr.panic, describePanic(fr.panic))
